@@ -89,6 +89,12 @@ check("C17", "fault_enumeration",
       "The Go runtime's own deadlock detector does not fire in cgo-linked binaries, so the 'all goroutines parked' criterion is evaluated by the harness on a stop-the-world snapshot; a bare stall or watchdog expiry is inconclusive. Exhaustive for the enumerated small-mix product only.",
       "runtime monitoring: enumerated lifecycle scenarios with gate hooks, Close-counting wrapper resources, structural deadlock criterion, race detector", "direct")
 
+
+check("C01", "fault_enumeration",
+      "Generated programs (1-4 labels x 1-6 ops: reads, writes of unique values, either, await) are built as jump tables following generated-code conventions and run under the real MPCalContext over 20 resource kinds (locals, indexed locals, IncMap/HashMap, Input/Output/Single/Custom channels, TCP and relaxed mailboxes, LocalShared, Persistent over both, FileSystem, raftkvs PersistentLog, CRDT, TwoPC, nested archetype); every fault position of every program is enumerated (refused operation before each op, false await, empty input, slow nested archetype, failing sibling PreCommit alone / with a slow sibling / late / inside a map; a quarter fire twice). A per-kind abstract model advanced only at commits must match every read of every attempt (incl. the retry), the externally observable state after every attempt (files, badger keys, channels, second sharer, 2PC replica, CRDT peer) and a final probe; wrapper resources assert the PreCommit/Commit/Abort protocol per dirty handle.",
+      "Fault positions are exhaustive per generated program; programs and resource mixes are sampled. Documented panics (abort after a relaxed send or SingleOutputChan write) are accepted as failing loudly. Procedures are not generated here (C04).",
+      "runtime monitoring: fault-position enumeration with reference-model oracle and protocol-asserting wrapper resources at commit/abort hooks", "direct")
+
 PROPS = [json.loads(l)["id"] for l in open(os.path.join(ROOT, "properties.jsonl"))]
 
 def main():
